@@ -11,23 +11,26 @@ use serde_json::json;
 /// rewrite the ledger in the units after the (first) SPLIT/UNSPLIT of `tk`: earlier quantities × factor,
 /// earlier unit prices ÷ factor, the split line removed. Trades dated on the split's own day happen
 /// before it (the matcher applies a day's splits after the day's trades).
-pub fn post_split_twin(l: &Ledger, idx: usize) -> Ledger {
+pub fn post_split_twin(l: &Ledger, idx: usize) -> Option<Ledger> {
     let s = &l[idx];
-    let factor = if s.kind == Kind::Split { s.a } else { Decimal::ONE / s.a };
+    // quantities × factor and unit prices ÷ factor, computed by one multiplication or one division so
+    // that divisible holdings stay exact; a rewriting that cannot be written exactly is not attempted
+    let up = |x: Decimal| -> Option<Decimal> { if s.kind == Kind::Split { x.checked_mul(s.a) } else { let y = x.checked_div(s.a)?; if y.checked_mul(s.a)? == x { Some(y) } else { None } } };
+    let down = |x: Decimal| -> Option<Decimal> { if s.kind == Kind::Split { let y = x.checked_div(s.a)?; if y.checked_mul(s.a)? == x { Some(y) } else { None } } else { x.checked_mul(s.a) } };
     let mut out = Vec::new();
     for (i, t) in l.iter().enumerate() {
         if i == idx { continue; }
         let mut t = t.clone();
         if t.ticker == s.ticker && t.date <= s.date {
             match t.kind {
-                Kind::Buy | Kind::Sell => { t.a = (t.a * factor).normalize(); t.b = (t.b / factor).normalize(); }
-                Kind::Accumulation | Kind::CapReturn => { t.a = (t.a * factor).normalize(); }
+                Kind::Buy | Kind::Sell => { t.a = up(t.a)?.normalize(); t.b = down(t.b)?.normalize(); }
+                Kind::Accumulation | Kind::CapReturn => { t.a = up(t.a)?.normalize(); }
                 _ => {}
             }
         }
         out.push(t);
     }
-    out
+    Some(out)
 }
 
 fn money_only() -> Proj {
@@ -46,7 +49,7 @@ pub fn run(ctx: &mut Ctx) {
     cfg.cost_events = true;
     let n = ctx.n(500, 30_000);
     let cases = matcher_cases(prop, ctx, &cfg, n);
-    ctx.ev.rule = "generated ledgers with SPLIT/UNSPLIT (ratios 2, 4, 5, 10, 0.5, 2.5) at any position relative to purchases, sales, 30-day windows and cost events. Oracles on the real calculate(): (a) for each split line, the ledger rewritten in post-split units (earlier quantities × ratio, earlier unit prices ÷ ratio, line removed) gives the same gains, losses, proceeds, allowable costs per disposal (legs per rule and acquisition date) and the same closing cost, with closing quantities equal; (b) inserting SPLIT r immediately followed by UNSPLIT r (same day, or next day with no trade between) changes nothing. Ledgers where a security has both a split and a cost event are in known-finding class splitBeforeCostEvent (D5). Correspondence: whole report vs model. Non-trivial = accepted ledger with a split between a disposal and its 30-day acquisition, or a split and ≥ 2 disposals; distinct by ledger text.".into();
+    ctx.ev.rule = "generated ledgers with SPLIT/UNSPLIT (ratios 2, 4, 5, 10, 0.5, 2.5, and consolidations by 3, 6, 7, 9 of exactly divisible holdings) at any position relative to purchases, sales, 30-day windows and cost events. Oracles on the real calculate(): (a) for each split line, the ledger rewritten in post-split units (earlier quantities × ratio, earlier unit prices ÷ ratio, line removed) gives the same gains, losses, proceeds, allowable costs per disposal (legs per rule and acquisition date) and the same closing cost, with closing quantities equal; (b) inserting SPLIT r immediately followed by UNSPLIT r (same day, or next day with no trade between) changes nothing. Ledgers where a security has both a split and a cost event are in known-finding class splitBeforeCostEvent (D5). Correspondence: whole report vs model. Non-trivial = accepted ledger with a split between a disposal and its 30-day acquisition, or a split and ≥ 2 disposals; distinct by ledger text.".into();
     let ex = run_impl::wide_exemptions();
     let mut r = Rng::new(ctx.seed ^ 0xC10);
     for (name, l) in cases {
@@ -62,7 +65,7 @@ pub fn run(ctx: &mut Ctx) {
         for &i in &split_idx {
             let s = &l[i];
             if l.iter().enumerate().any(|(j, t)| j != i && t.ticker == s.ticker && matches!(t.kind, Kind::Split | Kind::Unsplit) && t.date <= s.date) { continue; }
-            let twin = post_split_twin(&l, i);
+            let Some(twin) = post_split_twin(&l, i) else { ctx.ev.count("twins-not-exactly-expressible"); continue };
             ctx.ev.count("twins");
             let tout = run_impl::impl_calc(&twin, None, &ex);
             let d5 = l.iter().any(|t| t.ticker == s.ticker && matches!(t.kind, Kind::CapReturn | Kind::Accumulation));
